@@ -11,6 +11,7 @@ import (
 	"runtime/debug"
 	"strings"
 	"sync"
+	"sync/atomic"
 	"time"
 )
 
@@ -64,7 +65,9 @@ type World struct {
 	Panics   []string // panics raised by the code under test inside a step
 	// Hangs: a step (one call into the node) that did not return within StepWatchdog although no fake
 	// was holding it - the code under test blocks itself. Later steps of a hung world are skipped.
-	Hangs []string
+	Hangs     []string
+	hangMu    sync.Mutex
+	lateHangs []string
 
 	delivered map[int]int
 	dropped   map[int]bool
@@ -222,7 +225,7 @@ func (w *World) Step(n *Node, fn func()) (crashed bool) {
 		return p.Dead()
 	case <-w.crashed:
 		return true
-	case <-time.After(StepWatchdog):
+	case <-time.After(currentWatchdog()):
 	}
 	// The step is overdue. It is reported as a hang only if its goroutine is parked on a lock, channel or
 	// wait group (not merely starved of CPU on a busy machine): look at it a few more times.
@@ -231,6 +234,7 @@ func (w *World) Step(n *Node, fn func()) (crashed bool) {
 		blocked := strings.Contains(state, "semacquire") || strings.Contains(state, "chan receive") || strings.Contains(state, "chan send") ||
 			strings.Contains(state, "select") || strings.Contains(state, "sync.") || strings.Contains(state, "Lock")
 		if blocked || tries >= 12 {
+			hangSeen.Store(true)
 			w.mu.Lock()
 			w.Hangs = append(w.Hangs, "step goroutine state: "+state+"\n"+dump)
 			w.mu.Unlock()
@@ -244,6 +248,36 @@ func (w *World) Step(n *Node, fn func()) (crashed bool) {
 		case <-time.After(10 * time.Second):
 		}
 	}
+}
+
+// noteHang records a hang observed outside a step (callable with or without the world lock held).
+func (w *World) noteHang(msg string) {
+	hangSeen.Store(true)
+	w.hangMu.Lock()
+	w.lateHangs = append(w.lateHangs, msg)
+	w.hangMu.Unlock()
+}
+
+// AllHangs returns every recorded hang.
+func (w *World) AllHangs() []string {
+	w.mu.Lock()
+	out := append([]string{}, w.Hangs...)
+	w.mu.Unlock()
+	w.hangMu.Lock()
+	out = append(out, w.lateHangs...)
+	w.hangMu.Unlock()
+	return out
+}
+
+// hangSeen: once a hang was confirmed in this process, later cases (rapid re-runs the failing case many
+// times while shrinking it) use a short watchdog.
+var hangSeen atomic.Bool
+
+func currentWatchdog() time.Duration {
+	if hangSeen.Load() {
+		return 1500 * time.Millisecond
+	}
+	return StepWatchdog
 }
 
 // stepGoroutineState returns the scheduler state of the goroutine that runs the current step's call and a
